@@ -148,8 +148,17 @@ def server_job(job):
     return process_block(job["items"], job["argv"])
 
 
-def make_machine(shard):
+def make_machine(shard, budget_s=None):
     pool_n = len(shard.pool)
+    deadline = [time.time() + budget_s if budget_s else None]
+
+    def out_of_budget():
+        # exploration budget of the shard (a pool with one slow block must not keep the whole run waiting); what was not
+        # explored is counted, never judged
+        if deadline[0] is not None and time.time() > deadline[0]:
+            shard.stats.classes["steps skipped: exploration budget of the shard used up"] += 1
+            return True
+        return False
 
     class History(RuleBasedStateMachine):
         def __init__(self):
@@ -188,6 +197,8 @@ def make_machine(shard):
 
         @rule(i=st.integers(0, pool_n - 1))
         def process(self, i):
+            if out_of_budget():
+                return
             items = asm.instrs_to_items(shard.pool[i])
             r = hermetic.local(process_block, items, OPTSETS[self.oi], reset=False, timeout=30)
             self._judge(i, norm(r.value) if r.kind == "ok" else {"harness": r.kind}, "isolated")
@@ -196,6 +207,8 @@ def make_machine(shard):
         def process_contract(self, idx):
             """several blocks in one go (as a contract would): each must still equal its own fresh result"""
             for i in idx:
+                if out_of_budget():
+                    return
                 items = asm.instrs_to_items(shard.pool[i])
                 r = hermetic.local(process_block, items, OPTSETS[self.oi], reset=False, timeout=30)
                 self._judge(i, norm(r.value) if r.kind == "ok" else {"harness": r.kind}, "within a batch")
@@ -228,7 +241,7 @@ def shard_run(n_machines, steps, sd):
     shard = Shard(pools[-1], stats)
     shard.build_models()
     shard.validate_models(random.Random(sd))
-    M = make_machine(shard)
+    M = make_machine(shard, budget_s=(240 if n_machines <= 20 else 1200))
     run_state_machine_as_test(hypothesis.seed(sd)(M), settings=settings(max_examples=n_machines, stateful_step_count=steps, deadline=None,
                                                                         database=None, phases=(Phase.generate,),
                                                                         suppress_health_check=list(HealthCheck)))
